@@ -28,7 +28,7 @@ def module_ast(relpath):
 
 def find_def(qual):
     """qual = 'src/common.py:func' or 'src/x.py:Class.method' -> (FunctionDef, source_text, class_node|None)"""
-    rel, name = qual.split(":")
+    rel, name = qual.split("#")[0].split(":")
     tree, src = module_ast(rel)
     parts = name.split(".")
     body = tree.body
